@@ -1,6 +1,14 @@
 (* C17 -- protobuf write/read round trip up to ProtobufEq, both writer back ends.
-   This file only pins statements; proofs live in Proto/Proofs.v.  Where the faithful model refutes
-   the property the witness is pinned here (closed by computation) together with the class predicate. *)
+   This file only pins statements; proofs live in Proto/Proofs.v (primitives, sweeps), Proto/RwLemmas.v (writer:
+   buffer frame, back ends, records) and Proto/RoundtripProofs.v (reader, unbounded round trip).  Where the faithful
+   model refutes the property the witness is pinned here (closed by computation) together with the class predicate.
+   Finding classes ([Known_C17] = [Known_ty] on the type, closed under nesting, or a BitVec with excess bytes in
+   the value): CHOICE with a NULL alternative (F17-1), CHOICE with a SEQUENCE OF alternative (F17-2),
+   SEQUENCE OF SEQUENCE OF (F17-3, F17-4), BitVec with excess bytes (F17-5) and SEQUENCE OF NULL (F17-7, constructor
+   [K_list_null] of [Known_ty]; witness [C17_refuted_list_of_null]).
+   Not a C17 violation: the property is about one value per writer.  A ProtobufWriter that is reused after a
+   top-level CHOICE keeps is_root = false and wraps the next value as field 2; this is documented by the Example
+   [C17_writer_reuse_after_choice] only. *)
 From A1 Require Import Proto.Wire Proto.Rw Proto.Proofs Proto.RwLemmas Proto.RoundtripProofs.
 Local Open Scope N_scope.
 
@@ -155,8 +163,9 @@ Proof.
     apply N.eqb_eq in Hwf. contradiction.
 Qed.
 
-(* NEW class found while proving C17_roundtrip (model level): the elements of a SEQUENCE OF NULL leave no trace on the
-   wire (write_null writes nothing, the element loop resets the counter), so the list reads back empty *)
+(* F17-7, found while proving C17_roundtrip and confirmed on the crate (zoo type 21, corpus/C17/f17-7-list-of-null.txt):
+   the elements of a SEQUENCE OF NULL leave no trace on the wire (write_null writes nothing, the element loop resets
+   the counter), so the list reads back empty *)
 Definition t_listnull := TSeq [(false, TSeqOf TNull); (false, TInt KU8)].
 Theorem C17_refuted_list_of_null :
   let v := VSeq [VList [VNull; VNull]; VInt 7] in
@@ -169,8 +178,9 @@ Proof.
   vm_compute. repeat split; reflexivity.
 Qed.
 
-(* the writer is left with is_root = false after a top-level CHOICE (write_choice takes the flag and never restores
-   it, unlike write_set_or_sequence): a second value written with the same writer is wrapped as field 2 *)
+(* documentation only, not a C17 violation (C17 speaks about one value per writer): the writer is left with
+   is_root = false after a top-level CHOICE (write_choice takes the flag and never restores it, unlike
+   write_set_or_sequence), so a second value written with the same writer is wrapped as field 2 *)
 Example C17_writer_reuse_after_choice :
   let t := TChoice [TInt KU8; TBytes] in
   (match wr dev_mode t (VChoice 0 (VInt 5)) (wst0 None) with
